@@ -80,7 +80,7 @@ func TestC04(t *testing.T) {
 				return "generated program rejected by Prepare (generator soundness): " + short(ans.PrepareErr, 400)
 			}
 			if owner, _ := anomaly(ans); owner != "" {
-				st.ForeignAnomaly(owner)
+				st.ForeignAnomaly(owner, c)
 				return ""
 			}
 			full := ans
